@@ -24,6 +24,9 @@ pub struct Scenario {
     pub draws: u64,
     pub num_tune: u64,
     pub dynamic: bool,
+    /// "default", "extra_doublings" (NUTS: two unchecked doublings after a U-turn), "fixed_step" (NUTS without step size
+    /// adaptation), "draw_only_estimate" (diagonal scales from the draw variance only)
+    pub variant: &'static str,
 }
 
 #[derive(Clone, Debug)]
@@ -40,6 +43,8 @@ struct Call {
     start: u64,
     end: u64,
     result: CallResult,
+    /// a set_position call (the first call; a second one follows when the first was refused)
+    is_init: bool,
 }
 
 #[derive(Clone, Debug)]
@@ -62,6 +67,15 @@ fn patches_of(s: &Scenario) -> Vec<(&'static str, J)> {
     if s.preset.is_nuts() {
         p.push(("maxdepth", json!(4)));
         p.push(("trajectory_kind", json!(s.kind)));
+        match s.variant {
+            "extra_doublings" => {
+                p.push(("maxdepth", json!(3)));
+                p.push(("extra_doublings", json!(2)));
+            }
+            "fixed_step" => p.push(("adapt_options.step_size_settings.adapt_options.method", json!({"Fixed": 0.3}))),
+            "draw_only_estimate" => p.push(("adapt_options.mass_matrix_options.use_grad_based_estimate", json!(false))),
+            _ => {}
+        }
     } else {
         p.push(("trajectory_kind", json!(s.kind)));
         p.push(("step_size", json!(0.25)));
@@ -93,7 +107,7 @@ fn run_scenario(s: &Scenario, plan: &BTreeMap<u64, Fault>, extra_draws: u64) -> 
     let mut chain = match built {
         Ok(c) => c,
         Err(p) => {
-            calls.push(Call { start: 0, end: 0, result: CallResult::Panic(p) });
+            calls.push(Call { start: 0, end: 0, result: CallResult::Panic(p), is_init: true });
             return Trace { calls, evals: vec![], start };
         }
     };
@@ -105,8 +119,23 @@ fn run_scenario(s: &Scenario, plan: &BTreeMap<u64, Fault>, extra_draws: u64) -> 
         Ok(Err(e)) => CallResult::Err(format!("{e:#}")),
         Err(p) => CallResult::Panic(p),
     };
-    let stop = !matches!(res, CallResult::InitOk);
-    calls.push(Call { start: c0, end: c1, result: res });
+    let mut stop = !matches!(res, CallResult::InitOk);
+    let refused = matches!(res, CallResult::Err(_));
+    calls.push(Call { start: c0, end: c1, result: res, is_init: true });
+    let fatal_in_init = plan.iter().any(|(k, f)| *f == Fault::Fatal && c0 <= *k && *k < c1);
+    if refused && !fatal_in_init {
+        // a refused starting point is retried on the same chain object, as the parallel sampler does
+        let c0 = count(&log);
+        let r = guard(|| chain.set_position(&start));
+        let c1 = count(&log);
+        let res = match r {
+            Ok(Ok(())) => CallResult::InitOk,
+            Ok(Err(e)) => CallResult::Err(format!("{e:#}")),
+            Err(p) => CallResult::Panic(p),
+        };
+        stop = !matches!(res, CallResult::InitOk);
+        calls.push(Call { start: c0, end: c1, result: res, is_init: true });
+    }
     if !stop {
         for _ in 0..(s.draws + extra_draws) {
             let a = count(&log);
@@ -124,7 +153,7 @@ fn run_scenario(s: &Scenario, plan: &BTreeMap<u64, Fault>, extra_draws: u64) -> 
                 Err(p) => CallResult::Panic(p),
             };
             let stop = !matches!(res, CallResult::Ok { .. });
-            calls.push(Call { start: a, end: b, result: res });
+            calls.push(Call { start: a, end: b, result: res, is_init: false });
             if stop {
                 break;
             }
@@ -136,7 +165,7 @@ fn run_scenario(s: &Scenario, plan: &BTreeMap<u64, Fault>, extra_draws: u64) -> 
 
 fn scen_json(s: &Scenario) -> J {
     json!({"preset": s.preset.name(), "kind": s.kind, "dim": s.dim, "target": s.target, "seed": s.seed, "draws": s.draws,
-        "num_tune": s.num_tune, "dynamic": s.dynamic})
+        "num_tune": s.num_tune, "dynamic": s.dynamic, "variant": s.variant})
 }
 
 fn scen_from_json(j: &J) -> Scenario {
@@ -155,6 +184,12 @@ fn scen_from_json(j: &J) -> Scenario {
         draws: j["draws"].as_u64().unwrap(),
         num_tune: j["num_tune"].as_u64().unwrap(),
         dynamic: j["dynamic"].as_bool().unwrap(),
+        variant: match j.get("variant").and_then(|v| v.as_str()).unwrap_or("default") {
+            "extra_doublings" => "extra_doublings",
+            "fixed_step" => "fixed_step",
+            "draw_only_estimate" => "draw_only_estimate",
+            _ => "default",
+        },
     }
 }
 
@@ -169,6 +204,7 @@ fn judge(report: &mut Report, s: &Scenario, base: &Trace, plan: &BTreeMap<u64, F
     let kinds: Vec<&str> = plan.values().map(|f| f.name()).collect();
     let kind_tag = kinds.join("+");
     let dynamic_tag = if s.preset.is_nuts() { "" } else if s.dynamic { ":dynamic" } else { ":static" };
+    // the option variant of the scenario is part of the replay payload, not of the signature
     let sig = |what: &str| format!("C05:{pname}:{}{dynamic_tag}:{what}", s.kind);
     let single = plan.len() == 1;
     let (&k0, _) = plan.iter().next().unwrap();
@@ -176,7 +212,7 @@ fn judge(report: &mut Report, s: &Scenario, base: &Trace, plan: &BTreeMap<u64, F
     for (ci, call) in tr.calls.iter().enumerate() {
         // no panic, anywhere
         if let CallResult::Panic(p) = &call.result {
-            let where_ = if ci == 0 { "set_position" } else { "draw" };
+            let where_ = if call.is_init { "set_position" } else { "draw" };
             report.violation(sig(&format!("panic_in_{where_}:{}", panic_site(p))), format!("faults {kind_tag}: call {ci} panicked: {p}"), replay.clone());
             return;
         }
@@ -197,7 +233,7 @@ fn judge(report: &mut Report, s: &Scenario, base: &Trace, plan: &BTreeMap<u64, F
         };
         // a draw evaluates a point it has evaluated before only when the step size search is re-run from the current
         // point (after the first transformation update): recognisable in the faulted trace itself
-        let prev_pos: Option<Vec<f64>> = if ci == 0 {
+        let prev_pos: Option<Vec<f64>> = if call.is_init {
             None
         } else {
             match tr.calls.get(ci - 1).map(|c| &c.result) {
@@ -211,7 +247,7 @@ fn judge(report: &mut Report, s: &Scenario, base: &Trace, plan: &BTreeMap<u64, F
                 || tr.evals[call.start as usize..k as usize].iter().any(|(p, faulted)| !*faulted && same_bits(p, &e.0))
         };
         let site = |k: u64| -> &'static str {
-            if ci == 0 {
+            if call.is_init {
                 if at_start(k) { "initial_point" } else { "step_size_search" }
             } else if !is_first && revisit(k) {
                 "research_current_point"
@@ -230,7 +266,7 @@ fn judge(report: &mut Report, s: &Scenario, base: &Trace, plan: &BTreeMap<u64, F
             CallResult::Err(e) => {
                 if fatal.is_some() {
                     // the call that evaluated the unrecoverable error returned Err: sampling ends here
-                } else if ci == 0 {
+                } else if call.is_init {
                     if !here.iter().any(|(k, _)| at_start(*k)) {
                         let st = here.first().map(|(k, _)| site(*k)).unwrap_or("no_fault_in_call");
                         report.violation(sig(&format!("recoverable_fault_fails_set_position:{st}")), format!("faults {kind_tag}: set_position returned Err: {e}"), replay.clone());
@@ -240,11 +276,14 @@ fn judge(report: &mut Report, s: &Scenario, base: &Trace, plan: &BTreeMap<u64, F
                 } else {
                     report.violation(sig("error_after_recovered_fault"), format!("faults {kind_tag}: draw {} returned Err although no fault was evaluated in it: {e}", ci - 1), replay.clone());
                 }
+                if call.is_init && tr.calls.get(ci + 1).map(|c| c.is_init).unwrap_or(false) {
+                    continue; // the refused starting point is retried
+                }
                 break;
             }
             CallResult::InitOk | CallResult::Ok { .. } if fatal.is_some() => {
                 let (k, _) = fatal.unwrap();
-                let where_ = if ci == 0 { "set_position" } else { "draw" };
+                let where_ = if call.is_init { "set_position" } else { "draw" };
                 report.violation(
                     sig(&format!("unrecoverable_error_swallowed_in_{where_}:{}", site(*k))),
                     format!("faults {kind_tag}: unrecoverable error at evaluation {k} (#{} of call {ci}) but the call returned Ok", k - call.start),
@@ -339,7 +378,14 @@ fn scenarios(seed: u64, thorough: bool) -> Vec<Scenario> {
                         draws: if thorough { 30 } else { 12 },
                         num_tune: 8,
                         dynamic,
+                        variant: "default",
                     });
+                    // rarely used options of the diagonal NUTS preset
+                    if preset == Preset::DiagNuts && dim == 3 {
+                        for variant in ["extra_doublings", "fixed_step", "draw_only_estimate"] {
+                            v.push(Scenario { preset, kind, dim, target: "iso", seed: rng.next_u64(), draws: if thorough { 30 } else { 12 }, num_tune: 8, dynamic, variant });
+                        }
+                    }
                 }
             }
         }
